@@ -10,18 +10,9 @@ from harness.mapgen import Arrangement, arr_request, to_float_lines, valid_maps
 from harness.streams import c01
 
 
-def s06_insert(ctx):
-    import_fractopo()
-    from shapely.geometry import LineString, Point
-
-    from fractopo.branches_and_nodes import insert_point_to_linestring
-
-    res = StreamResult("S06-insert", rule="random polylines (2..6 vertices, incl. hairpins and very short / very long segments) and points within the threshold of a "
-                       "segment interior, of a vertex, of the first / last vertex: insert_point_to_linestring vs the exact model; "
-                       "non-trivial = the nearest vertex of the whole polyline is NOT an end of the closest segment, or a vertex is replaced")
-    rng = rng_for(ctx.seed, "S06i")
+def insert_cases(rng, n):
     cases = []
-    for _ in range(budget(ctx.tier, 500, 12000)):
+    for _ in range(n):
         t = rng.choice([0.001, 0.01, 0.1])
         k = rng.randint(2, 6)
         pts = [(rng.randint(-64, 64) / 4, rng.randint(-64, 64) / 4)]
@@ -42,6 +33,20 @@ def s06_insert(ctx):
             g = rng.uniform(-0.9, 0.9) * t
             p = (ax + u * (bx - ax) + nx * g, ay + u * (by - ay) + ny * g)
         cases.append((pts, p, t))
+    return cases
+
+
+def s06_insert(ctx):
+    import_fractopo()
+    from shapely.geometry import LineString, Point
+
+    from fractopo.branches_and_nodes import insert_point_to_linestring
+
+    res = StreamResult("S06-insert", rule="random polylines (2..6 vertices, incl. hairpins and very short / very long segments) and points within the threshold of a "
+                       "segment interior, of a vertex, of the first / last vertex: insert_point_to_linestring vs the exact model; "
+                       "non-trivial = the nearest vertex of the whole polyline is NOT an end of the closest segment, or a vertex is replaced")
+    rng = rng_for(ctx.seed, "S06i")
+    cases = insert_cases(rng, budget(ctx.tier, 500, 12000))
     resps = ctx.driver.parallel([f"insertpt t={rat(t)} line={line(pts)} pt={pt(p)}" for pts, p, t in cases])
     for (pts, p, t), resp in zip(cases, resps):
         res.evaluations += 1
@@ -428,7 +433,7 @@ def s06_generated(ctx):
 
     import fractopo.branches_and_nodes as ban
 
-    res = StreamResult("S06-generated", rule="regenerated snap_trace_to_another / is_endpoint_close_to_boundary (Lean, compiled, exact geometry for the parameters) vs the real "
+    res = StreamResult("S06-generated", rule="regenerated insert_point_to_linestring (with determine_insert_approach) / snap_trace_to_another / is_endpoint_close_to_boundary (Lean, compiled, exact geometry for the parameters) vs the real "
                        "functions on random polylines with ends 0 / 0.5 / 0.95 / 1.05 / 3 x snap from them; the regenerated `while any_changes_applied` driver vs the real loop "
                        "inside branches_and_nodes with a scripted snap_traces (every change pattern up to allowed_loops + 2 passes); non-trivial = something inserted / raised")
     if ctx.gen is None:
@@ -468,11 +473,26 @@ def s06_generated(ctx):
             script = [True] * n + tail
             cases.append(("driver", allowed, script))
             reqs.append(f"driver allowed={allowed} script={';'.join(str(int(b)) for b in script)}")
+    ins = insert_cases(rng, budget(ctx.tier, 300, 6000))
+    ins += [(pts, pts[rng.randrange(len(pts))], t) for pts, _, t in ins[:20]]  # the point coincides with a vertex: returned unchanged
+    crisp = [parse_resp(x).get("crisp") == "1" for x in ctx.driver.parallel([f"insertpt t={rat(t)} line={line(pts)} pt={pt(p)}" for pts, p, t in ins])]
+    for (pts, p, t), cr in zip(ins, crisp):
+        if cr:
+            cases.append(("ginsert", t, pts, p))
+            reqs.append(f"ginsert t={rat(t)} line={line(pts)} pt={pt(p)}")
+        else:
+            res.skipped["non_crisp"] = res.skipped.get("non_crisp", 0) + 1
     resps = ctx.gen.parallel(reqs)
     for c, req, resp in zip(cases, reqs, resps):
         res.evaluations += 1
         r = parse_resp(resp)
-        if c[0] == "snapto":
+        if c[0] == "ginsert":
+            _, t, pts, p = c
+            want = [(F(x), F(y)) for x, y in ban.insert_point_to_linestring(LineString(pts), Point(p), t).coords]
+            got = parse_line(r["line"])
+            res.nontrivial += int(len(want) == len(pts))
+            res.distribution["ginsert"] = res.distribution.get("ginsert", 0) + 1
+        elif c[0] == "snapto":
             _, t, pts, eps = c
             try:
                 out, ch = ban.snap_trace_to_another([Point(e) for e in eps], LineString(pts), t)
